@@ -117,7 +117,7 @@ TReadEof == IsEv("read_eof") /\ ReadEof /\ UNCHANGED cvars
 TRecv == /\ IsEv("recv") /\ st = "ended"
          /\ Rec[l].blen <= maxb
          /\ LET e == Rec[l] IN
-            IF e.cls = "eof" THEN DeliverEof ELSE Deliver(e.cls, e.canon)
+            IF e.cls = "eof" THEN DeliverEof \/ Deliver("eof", e.canon) ELSE Deliver(e.cls, e.canon)
          /\ UNCHANGED cvars
 TEnd == /\ IsEv("end") /\ st = "ended" /\ Complete
         /\ (kf => PrintT(<<"KNOWN", sid>>))
